@@ -20,6 +20,9 @@ def run(tier, seed):
     for c in hist[0]["changed_enc"]:
         v.violation("encoding is not a function of the value: after a history of failed encodes (over-long atoms, more atoms than a header lists) on the same thread "
                     "a value is encoded to other bytes than before", {"value": E.short(c["value"], 300), "entry_points": c["which_differ"]})
+    if hist[0]["concurrent_failures"]:
+        v.violation("a round trip depends on what other threads decode at the same time: a 100-level term that round-trips on its own failed while seven other threads did the same",
+                    {"threads": 8, "round_trips_per_thread": 300, "failed": hist[0]["concurrent_failures"]})
     for c in hist[0]["changed"]:
         v.violation("decoding is not a function of the bytes: after a history of rejected inputs on the same thread a valid encoding decodes differently than before", c)
     by_id = {r["id"]: r for r in recs + unenc}
